@@ -214,6 +214,18 @@ def gen_close_lines_ruleset(rng, name="T"):
             rs["files"][k] = lines
             rs["close_lines"] = rs.get("close_lines", 0) + 1
             break
+    # a tail of tiny, distinct probabilities in exponent notation (6e-10, 3e-10, 1e-10): ABSOLUTELY close, relatively far apart
+    tails = [k for k, v in rs["files"].items() if len(v) >= 3 and k[0] != "C"]
+    if tails and rng.random() < 0.6:
+        k = rng.choice(tails)
+        lines = list(rs["files"][k])
+        tiny = [6e-10, 3e-10, 1e-10] if rng.random() < 0.5 else [9e-11, 2.5e-11, 1e-12]
+        n = min(3, len(lines) - 1)
+        for j in range(n):
+            lines[len(lines) - n + j] = (lines[len(lines) - n + j][0], tiny[j])
+        if all(float(lines[i][1]) >= float(lines[i + 1][1]) for i in range(len(lines) - 1)):
+            rs["files"][k] = lines
+            rs["tiny_tail"] = rs.get("tiny_tail", 0) + 1
     return rs
 
 
